@@ -79,6 +79,13 @@ func init() {
 			ruleHashMove(w, r, nt)
 			ruleHashCover(w, r, nt)
 			ruleDeleteVoid(w, r, pf)
+			ruleValuesFresh(w, r, v2, "v2", "Before", "Remove", "Add", "After")
+			ruleIdentProv(w, r, v2, "v2")
+			ruleKeyBind(w, r, pf)
+			ruleSearchAll(w, r, pf, setModePatch)
+			ruleChildResult(w, r, pf)
+			ruleHashDom(w, r, nt, map[string]bool{"jsonString": true, "jsonNumber": true, "jsonBool": true, "jsonNull": true, "jsonList": true, "jsonObject": true})
+			ruleHashInjective(w, r, nt)
 			ruleArrayDispatch(w, r, v2, "v2", "diff", "patch")
 			ruleObjRecurse(w, r, v2, "v2")
 			r.Floor("R-PATHFRESH", 15)
@@ -100,6 +107,15 @@ func init() {
 			ruleDescend(w, r, pf)
 			ruleNotIgnored(w, r, pf, listModePatch)
 			ruleCreateOnlyMerge(w, r, pf, nil)
+			{
+				// exactness of Equals: strict checks compare with it
+				ntq := newNodeTypes(w, v2, "v2")
+				ruleTolerance(w, r, ntq)
+				ruleNodeCompare(w, r, ntq)
+				ruleTypeGuard(w, r, ntq)
+			}
+			ruleKinds(w, r, v2)
+			ruleChildResult(w, r, pf)
 			ruleArrayDispatch(w, r, v2, "v2", "patch")
 			ruleEqSize(w, r, newNodeTypes(w, v2, "v2"))
 			r.Floor("R-EXPECT", 12)
@@ -153,6 +169,7 @@ func init() {
 		Assumptions: append([]string{"the compiler's bounds-check elimination is semantics-preserving (a check it removed cannot fail)", "maps held by jsonObject values are non-nil (constructor invariant)"}, commonAssumptions...),
 		Run: func(w *World, r *Report) {
 			rulePanic(w, r, w.Pkg(pathV2))
+			ruleErrPropagate(w, r, w.Pkg(pathV2), "v2", nil)
 			ruleRawArg(w, r, w.Pkg(pathV2))
 			runCLI(w, r, "nopanic", "exit")
 			r.Floor("R-PANIC", 150)
@@ -190,6 +207,7 @@ func runCLI(w *World, r *Report, parts ...string) {
 		}
 		if has("plumbing") {
 			c.rulePlumbing(r)
+			c.rulePatchedRender(r)
 		}
 		if has("modes") {
 			c.ruleLibrarySelect(r)
@@ -269,6 +287,7 @@ func init() {
 			ruleSearchAll(w, r, pf, setModePatch)
 			ruleKeyBind(w, r, pf)
 			ruleArrayDispatch(w, r, v2, "v2", "patch")
+			ruleChildResult(w, r, pf)
 			ruleSetTarget(w, r, pf)
 			ruleNotIgnored(w, r, pf, setModePatch)
 			r.Floor("R-EXPECT", 6)
@@ -293,7 +312,7 @@ func init() {
 			r.Only(func(o Ob) bool { return !strings.Contains(o.Key, "no-key-passed-over") }, func(sub *Report) { ruleObjRecurse(w, sub, v2, "v2") })
 			// a common subsequence that is not the longest makes the walk restate equal elements (- x / + x)
 			r.Only(func(o Ob) bool {
-				return o.Rule == "R-LCSDEP" && !strings.Contains(o.Key, "kinds-only") && !strings.Contains(o.Key, "same-kind-recursion")
+				return o.Rule == "R-LCSDEP" && !strings.Contains(o.Key, "kinds-only")
 			}, func(sub *Report) { ruleListDiff(w, sub, v2) })
 			nt := newNodeTypes(w, v2, "v2")
 			ruleHashMove(w, r, nt)
@@ -317,6 +336,10 @@ func init() {
 			rulePathTab(w, r, v2)
 			ruleJSONCodec(w, r, v2, "v2")
 			ruleRenderPayload(w, r, v2, "v2")
+			// what the command prints is the library's rendering, byte for byte (no post-processing in package main)
+			r.Only(func(o Ob) bool { return o.Rule == "R-CLI/O" && strings.Contains(o.Key, "is-library-rendering") }, func(sub *Report) { runCLI(w, sub, "output") })
+			ruleRawTypes(w, r, v2)
+			ruleDiffReaders(w, r, v2, "v2", "Diff")
 			ruleScanErr(w, r, v2, "v2")
 			r.Floor("R-AUTOMATON", 50)
 			r.Floor("R-PATHTAB", 6)
@@ -353,6 +376,9 @@ func init() {
 			rulePtr(w, r, v2, "v2")
 			rulePair(w, r, v2, "v2")
 			ruleRevAdd(w, r, v2, "v2", "Add")
+			// what the command prints is the library's rendering, byte for byte (no post-processing in package main)
+			r.Only(func(o Ob) bool { return o.Rule == "R-CLI/O" && strings.Contains(o.Key, "is-library-rendering") }, func(sub *Report) { runCLI(w, sub, "output") })
+			ruleRawTypes(w, r, v2)
 			rulePtrAgree(w, r, v2)
 			rulePureEntries(w, r, v2, newPatchFamily(w, v2, "v2"), map[string]bool{"Diff.RenderPatch": true})
 			r.Floor("R-PTR", 6)
@@ -364,14 +390,27 @@ func init() {
 		Run: func(w *World, r *Report) {
 			ruleCtxIndex(w, r, w.Pkg(pathV2))
 			v2 := w.Pkg(pathV2)
+			pf := newPatchFamily(w, v2, "v2")
 			ruleOpSubset(w, r, v2)
+			{
+				// exactness of Equals: strict checks compare with it
+				ntq := newNodeTypes(w, v2, "v2")
+				ruleTolerance(w, r, ntq)
+				ruleNodeCompare(w, r, ntq)
+				ruleTypeGuard(w, r, ntq)
+			}
+			ruleEqSize(w, r, newNodeTypes(w, v2, "v2"))
+			ruleCreateOnlyMerge(w, r, pf, nil)
+			ruleDescend(w, r, pf)
+			ruleNotIgnored(w, r, pf, listModePatch)
+			ruleKinds(w, r, v2)
+			ruleDiffReaders(w, r, v2, "v2", "Patch")
 			rulePatchSeq(w, r, v2)
 			ruleParent(w, r, v2)
 			rulePtrRead(w, r, v2)
 			rulePtrAgree(w, r, v2)
 			rulePtr(w, r, v2, "v2")
 			rulePrepend(w, r, v2)
-			pf := newPatchFamily(w, v2, "v2")
 			ruleFWD(w, r, pf, []string{"before", "after"})
 			ruleExpect(w, r, pf, listModePatch)
 			rulePureEntries(w, r, v2, pf, map[string]bool{"Diff.RenderPatch": true})
@@ -390,6 +429,16 @@ func init() {
 			rulePathFresh(w, r, v2, "v2")
 			ruleDeleteVoid(w, r, newPatchFamily(w, v2, "v2"))
 			ruleWholeObject(w, r, v2, "v2", "Add")
+			{
+				nt := newNodeTypes(w, v2, "v2")
+				ruleHashMove(w, r, nt)
+				ruleHashInjective(w, r, nt)
+				ruleNodeCompare(w, r, nt)
+				ruleEqSize(w, r, nt)
+			}
+			// what the command prints is the library's rendering, byte for byte (no post-processing in package main)
+			r.Only(func(o Ob) bool { return o.Rule == "R-CLI/O" && strings.Contains(o.Key, "is-library-rendering") }, func(sub *Report) { runCLI(w, sub, "output") })
+			ruleRawTypes(w, r, v2)
 			ruleObjRecurse(w, r, v2, "v2")
 		}})
 	register(&PropSpec{ID: "C12",
@@ -398,9 +447,11 @@ func init() {
 		Assumptions: commonAssumptions,
 		Run: func(w *World, r *Report) {
 			v2 := w.Pkg(pathV2)
+			ruleDiffReaders(w, r, v2, "v2", "Merge")
 			ruleMergeRead(w, r, v2)
 			pf := newPatchFamily(w, v2, "v2")
 			ruleFWD(w, r, pf, []string{"newValues", "strategy", "pathAhead"})
+			ruleChildResult(w, r, pf)
 			ruleDescend(w, r, pf)
 			ruleNotIgnored(w, r, pf, listModePatch)
 			ruleDeleteVoid(w, r, pf)
@@ -416,6 +467,14 @@ func init() {
 		Run: func(w *World, r *Report) {
 			v2 := w.Pkg(pathV2)
 			ruleListDiff(w, r, v2)
+			{
+				// the LCS runs over element digests: digests that collide across types or ignore part of a value shorten or lengthen the script
+				nt := newNodeTypes(w, v2, "v2")
+				ruleHashDom(w, r, nt, map[string]bool{"jsonString": true, "jsonNumber": true, "jsonBool": true, "jsonNull": true, "jsonList": true, "jsonObject": true})
+				ruleHashCover(w, r, nt)
+				ruleHashMove(w, r, nt)
+				ruleHashInjective(w, r, nt)
+			}
 			ruleArrayDispatch(w, r, v2, "v2", "diff")
 			ruleProv(w, r, v2, "v2", map[string]string{"Before": "b", "After": "a"})
 		}})
@@ -440,6 +499,7 @@ func init() {
 			ruleNotIgnored(w, r, pf, nil)
 			rulePatchResult(w, r, pf, nil)
 			ruleRawTypesTag(w, r, lib, "lib")
+			ruleDiffReaders(w, r, lib, "lib", "Diff")
 			ruleScanErr(w, r, lib, "lib")
 			r.Floor("R-FWD(lib)", 60)
 			r.Floor("R-OPTFWD(lib)", 80)
@@ -457,6 +517,7 @@ func init() {
 			ruleObjRecurse(w, r, lib, "lib")
 			ruleJSONCodec(w, r, lib, "lib")
 			ruleDeleteVoid(w, r, newPatchFamily(w, lib, "lib"))
+			ruleDiffReaders(w, r, lib, "lib", "Patch", "Merge")
 			ruleScanErr(w, r, lib, "lib")
 		}})
 }
